@@ -87,7 +87,7 @@ def cases(tier, seed):
             # sessions: requests interleaved with frames that must not be executed
             ops = [R.cfg(mem, ep, B), "rp.backend 0 0 1"]
             for i in range(30 * reps):
-                k = rnd.choice(["req", "req", "resp", "meta", "dup", "badcrc"])
+                k = rnd.choice(["req", "req", "resp", "meta", "dup", "badcrc", "chanfail"])
                 seq, a = rnd.getrandbits(16), rnd.getrandbits(32)
                 if k == "req":
                     write = rnd.random() < 0.5
@@ -103,6 +103,14 @@ def cases(tier, seed):
                     ops += feed(serial, R.frame(rnd.choice([R.RRESP, R.WRESP]), opts, code, seq, a, size, pl))
                 elif k == "meta":
                     ops += feed(serial, R.frame(R.META, R.transport_opts(serial, 0, []), rnd.choice([1, 2]), 0, 0, 0))
+                elif k == "chanfail":
+                    # the channel fails (error, or the stream ends inside a frame) right after a request was executed
+                    # and released: nothing was received, nothing may be executed
+                    fr = R.request(serial, True, mem == 16, seq, a, 1, R.rbytes(rnd, unit))
+                    ops += ["rp.backend 0 0 0"] + feed(serial, fr) + rpf()
+                    w = R.wire(serial, R.request(serial, True, mem == 16, seq + 1, a, 2, R.rbytes(rnd, 2 * unit)))
+                    cut = rnd.choice([0, 1, 5, 9, len(w) - 1])
+                    ops += ["rp.src %s%s" % ((R.hexs(w[:cut]) + " ") if cut else "", rnd.choice(["!eio", "!epipe", "!enodata"]))]
                 elif k == "dup":
                     # the same request twice: two frames, two executions
                     fr = R.request(serial, True, mem == 16, seq, a, 1, R.rbytes(rnd, unit))
